@@ -566,6 +566,78 @@ def compile_time_partial_ops(ctx):
     ctx.floor('compile-time round() sites in optimize', n, 1)
 
 
+def asserted_preconditions(ctx):
+    repo = ctx.repo
+    rule = 'C06.asserted-precondition-established-by-callers'
+    ctx.rule(rule, 'ArrayDimRange.static_lbound/static_ubound assert that '
+             'the bound is constant; every use (compile passes, layout, '
+             'listing writer) must be dominated by a test that establishes '
+             'it (is_static_array / is_const / array_dims_are_const), else '
+             'an accepted program with a dynamic array raises '
+             'AssertionError')
+    establishing = ('is_static_array', 'is_const', 'array_dims_are_const')
+    # confirm the belief: the properties do assert constness
+    for qn in ('ArrayDimRange.static_lbound', 'ArrayDimRange.static_ubound'):
+        f = repo.func('qbee.stmt', qn)
+        if not any(isinstance(s, ast.Assert) and 'is_const' in unparse(s)
+                   for s in f.node.body):
+            ctx.observe(f'{qn} no longer asserts constness; the rule is '
+                        f'vacuous for it')
+            return
+    n = 0
+    for f in repo.all_functions():
+        if f.module.name == 'qbee.stmt' and f.qualname.startswith(
+                'ArrayDimRange.'):
+            continue
+        uses = [x for x in ast.walk(f.node) if isinstance(x, ast.Attribute)
+                and x.attr in ('static_lbound', 'static_ubound')]
+        if not uses:
+            continue
+        cfg = build_cfg(f.node, repo_noreturn)
+        for u in uses:
+            n += 1
+            st = u
+            while not isinstance(st, ast.stmt):
+                st = st._parent
+            # enclosing function may be a nested def (fmt_type)
+            owner = st
+            while not isinstance(owner, (ast.FunctionDef, ast.Lambda)):
+                owner = owner._parent
+            c = cfg if owner is f.node else build_cfg(owner, repo_noreturn)
+            guarded = False
+            for x in c.nodes:
+                if x.ast is st:
+                    for tnode, lab in c.conditions(x):
+                        if tnode.kind != 'test':
+                            continue
+                        t = tnode.ast.test
+                        neg = isinstance(t, ast.UnaryOp) and \
+                            isinstance(t.op, ast.Not)
+                        txt = unparse(t.operand if neg else t)
+                        if any(e in txt for e in establishing) and (
+                                (not neg and lab == 'true') or
+                                (neg and lab == 'false')):
+                            guarded = True
+            # comprehension filter / same-expression conjunction
+            for a in ancestors(u):
+                if isinstance(a, ast.comprehension) and any(
+                        any(e in unparse(i) for e in establishing)
+                        for i in a.ifs):
+                    guarded = True
+                if a is st:
+                    break
+            construct = f'{f.file}:{f.qualname}:{u.attr}'
+            ctx.instance(rule, construct, sample={'guarded': guarded})
+            if not guarded:
+                ctx.finding(rule, construct,
+                            f'{f.qualname} reads .{u.attr} without a '
+                            f'dominating is_static_array / is_const test: '
+                            f'for a dynamic array the assert in '
+                            f'ArrayDimRange.{u.attr} fails '
+                            f'(AssertionError)', f.file, u.lineno)
+    ctx.floor('uses of static array bounds', n, 5)
+
+
 def run(ctx):
     ctx.clauses = [
         'statement dispatch exhaustiveness',
@@ -584,6 +656,7 @@ def run(ctx):
     token_tables(ctx)
     data_label_lookup(ctx)
     compile_time_partial_ops(ctx)
+    asserted_preconditions(ctx)
     try:
         from .. import grammar_shapes
     except ImportError:
